@@ -9,5 +9,7 @@ CHECKS = {
     "C01": {"harnesses": [("harness.matching", "C01_ClearingRound"), ("harness.matching", "C01_Continuous")]},
     "C02": {"harnesses": [("harness.priority", "C02_OrderLaws"), ("harness.priority", "C02_HeapMaintenance"),
                           ("harness.matching", "C02_ClearingRound"), ("harness.matching", "C02_Continuous")]},
+    "C04": {"harnesses": [("harness.ophistory", "C04_OpHistory"), ("harness.ophistory", "C04_NegativeOps")]},
+    "C08": {"harnesses": [("harness.ophistory", "C08_OpHistory")]},
     "C03": {"harnesses": [("harness.matching", "C03_ClearingRound"), ("harness.matching", "C03_Continuous")]},
 }
